@@ -4,16 +4,22 @@
   sectors), with the masks / layouts taken from the extraction.
 
   The I/O clause ("proportional to the request, never scanning") is stated on the pure models as *footprint* theorems:
-  `Hv.Footprint.{vdi,vhd,hds}` name, from the geometry alone, the file ranges a read of `[off, off+len)` may look at
-  (the table entries of the units the request touches and the requested part of each allocated unit);
+  `Hv.Footprint.{vdi,vhd,hds,vhdx,vmdk,qcow2Meta/qcow2Data}` name, from the geometry alone, the file ranges a read of
+  `[off, off+len)` may look at (the table entries of the units the request touches and the requested part of each
+  allocated unit; VHDX: sector-bitmap entries and bitmap bytes of partially present blocks; VMDK: one grain-table entry
+  per grain; QCOW2: the L2 entries of the guest clusters touched, which bounds the look-ahead of run coalescing);
   `*_read_footprint`: the reader's result is the same on any two files of equal size that agree on those ranges;
   `*_open_footprint`: the same for the constructors (header + the tables loaded eagerly);
   `io_bound`: the footprint's total length is bounded by the request and the geometry only — no term for the number
   of allocated units or the size of the file; `no_scan`: every data range lies inside a unit the request maps to.
+  `io_bound_tables` / `no_scan_tables`: the same for VHDX, VMDK sparse extents and QCOW2.
 -/
 import HvProofs.Wide
 import HvProofs.Basic
 import HvProofs.Footprint
+import HvProofs.FootprintVhdxOpen
+import HvProofs.FootprintVmdk
+import HvProofs.FootprintQcow2
 namespace Hv.C13
 open Hv Hv.Wide
 
@@ -225,19 +231,51 @@ theorem hds_open_footprint (f f' : File) (par : Option Hds.Reader) (hsz : f.size
     Hds.open f' par = (Hds.open f par).map (fun v => { v with fh := f' }) :=
   Footprint.hds_open_footprint f f' par ⟨hsz, h⟩
 
-/-- **vhdx_read_footprint_partial**: for requests that touch no PARTIALLY_PRESENT block, `VHDX._read(off, len)` looks only
-    at the 8-byte BAT entries of the payload blocks the request's sectors touch and at the requested sectors of the
-    fully present ones.
-    Full statement (not proved): the same without `hnp` — `Footprint.vhdx` already lists, for a partially present block,
-    the sector-bitmap BAT entry, the bitmap bytes of the requested sectors and the requested sectors; what is missing is
-    the lemma that the run counts of `_iter_partial_runs(bitmap, start, n)` add up to at most `n`, so that every present
-    run lies inside the requested sectors. -/
-theorem vhdx_read_footprint_partial (v : Vhdx.Vhdx) (f' : File) (off len : Nat) (hsz : v.fh.size = f'.size)
-    (h : ∀ r ∈ Footprint.vhdx v off len, ∀ p, r.1 ≤ p → p < r.1 + r.2 → v.fh.byte p = f'.byte p)
-    (hnp : ∀ i ∈ unitsTouched v.spb (off / v.sectorSize) ((min len (v.size - off) + v.sectorSize - 1) / v.sectorSize),
-      ∀ st mb, v.batGet (v.pbIndex i) = .ok (st, mb) → st ≠ Extracted.vhdx.PAYLOAD_BLOCK_PARTIALLY_PRESENT) :
+/-- **vhdx_read_footprint**: `VHDX._read(off, len)` looks only at the 8-byte BAT entries of the payload blocks the
+    request's sectors touch, at the requested sectors of the fully present ones, and — for a PARTIALLY_PRESENT block — at
+    the sector-bitmap BAT entry, the bitmap bytes that hold the bits of the requested sectors, and the requested sectors
+    (the run counts of `_iter_partial_runs(bitmap, start, n)` add up to at most `n`: `Footprint.vhdx_runs_total`, from
+    `partialRuns_eq_rle`). No hypothesis on the image; a parent, if any, is the same on both sides. -/
+theorem vhdx_read_footprint (v : Vhdx.Vhdx) (f' : File) (off len : Nat) (hsz : v.fh.size = f'.size)
+    (h : ∀ r ∈ Footprint.vhdx v off len, ∀ p, r.1 ≤ p → p < r.1 + r.2 → v.fh.byte p = f'.byte p) :
     v.read off len = ({ v with fh := f' } : Vhdx.Vhdx).read off len :=
-  Footprint.vhdx_read_footprint_partial v f' off len ⟨hsz, h⟩ hnp
+  Footprint.vhdx_read_footprint v f' off len ⟨hsz, h⟩
+
+/-- **vhdx_open_footprint**: `VHDX.__init__` looks only at the file identifier, both headers, both region tables, the
+    metadata table of the metadata region and the items it names (parent locator entries, keys and values included):
+    on a file of equal size that agrees on `Footprint.vhdxOpen` it fails with the same error or builds the same object
+    (up to the handle it keeps). The BAT is not read at open. No hypothesis on the image. -/
+theorem vhdx_open_footprint (f f' : File) (par : Option Vhdx.SectorReader) (hsz : f.size = f'.size)
+    (h : ∀ r ∈ Footprint.vhdxOpen f, ∀ p, r.1 ≤ p → p < r.1 + r.2 → f.byte p = f'.byte p) :
+    Vhdx.open f' par = (Vhdx.open f par).map (fun v => { v with fh := f' }) :=
+  Footprint.vhdx_open_footprint f f' par ⟨hsz, h⟩
+
+/-- **vmdk_read_footprint**: `SparseDisk.read_sectors(sector, count)` of an uncompressed sparse extent (hosted KDMV,
+    COWD, SE-sparse) — `_lookup_grain`, the run coalescer `get_runs`, the run reads — looks only at one grain-table
+    entry (4 bytes; SE-sparse 8) per grain the request touches, inside the table that the (already loaded) grain
+    directory names for it, and at the requested sectors of the grains those entries name. Arbitrary directory / table
+    contents. (The real code transfers the whole grain table that holds an entry, once, through its LRU cache:
+    `Footprint.vmdkIO`, `Footprint.vmdk_sub_vmdkIO`.) -/
+theorem vmdk_read_footprint (v : Vmdk.Sparse) (f' : File) (sector count : Nat)
+    (hunc : v.flags &&& Extracted.vmdk.SPARSEFLAG_COMPRESSED = 0) (hsz : v.fh.size = f'.size)
+    (h : ∀ r ∈ Footprint.vmdk v sector count, ∀ p, r.1 ≤ p → p < r.1 + r.2 → v.fh.byte p = f'.byte p) :
+    v.readSectors sector count = ({ v with fh := f' } : Vmdk.Sparse).readSectors sector count :=
+  Footprint.vmdk_read_footprint v f' sector count hunc ⟨hsz, h⟩
+
+/-- **qcow2_read_footprint**: `QCow2._read(offset, length)` — L1/L2 walk, `count_contiguous_subclusters`, run reads;
+    standard and extended L2 entries, compressed clusters — looks in the image file only at the L2 entries (8 bytes;
+    extended L2: 16) of the guest clusters the request touches and at the compressed data of the compressed ones, and in
+    the data file only at the requested part of the host clusters of the normal ones. The look-ahead of run coalescing
+    (DESIGN O3) is bounded by the request: `count_contiguous_subclusters` is called with
+    `nb_clusters = ⌈bytes_needed / cluster_size⌉` where `bytes_needed ≤ length + offset_in_cluster` and stays inside the
+    current L2 table, so every entry it consults belongs to a guest cluster of `[offset, offset + length)`
+    (`Footprint.qcow2_ahead`). Arbitrary L1 / L2 contents; the header geometry is the one the gates of `open` accept. -/
+theorem qcow2_read_footprint (q : Qcow2.QCow2) (hh : Qcow2.HdrOK q) (f' d' : File) (offset length : Nat)
+    (hsz : q.fh.size = f'.size) (hdsz : q.dataFile.size = d'.size)
+    (hm : ∀ r ∈ Footprint.qcow2Meta q offset length, ∀ p, r.1 ≤ p → p < r.1 + r.2 → q.fh.byte p = f'.byte p)
+    (hd : ∀ r ∈ Footprint.qcow2Data q offset length, ∀ p, r.1 ≤ p → p < r.1 + r.2 → q.dataFile.byte p = d'.byte p) :
+    q.read offset length = ({ q with fh := f', dataFile := d' } : Qcow2.QCow2).read offset length :=
+  Footprint.qcow2_read_footprint q hh f' d' offset length ⟨hsz, hm⟩ ⟨hdsz, hd⟩
 
 /-- **io_bound** (`footprint_size_bound`): the number of file bytes a request may look at is bounded by the request and
     the geometry alone: at most `len` data bytes (VHD: whole sectors) plus one table entry per unit touched, of which
@@ -276,6 +314,45 @@ theorem no_scan :
    fun v off len hk h r hr => vhd_footprint_inside v off len hk h r hr,
    fun v off len h r hr => hds_footprint_inside v off len h r hr⟩
 
+/-- **io_bound_tables**: the same for the formats whose tables are read per request. VHDX: whole sectors of the request,
+    one bitmap bit per sector, two 8-byte BAT entries per block touched. VMDK: the requested sectors and one grain-table
+    entry (≤ 8 bytes) per grain touched. QCOW2, image file: per guest cluster touched one L2 entry (≤ 16 bytes) and, if
+    the cluster is compressed, its compressed data (≤ `2^(cluster_bits − 8)` sectors = two clusters); data file: at
+    most `length` bytes. No term for the number of allocated units, the table sizes or the file size. -/
+theorem io_bound_tables :
+    (∀ (v : Vhdx.Vhdx) (off len : Nat), total (Footprint.vhdx v off len) ≤
+      ((min len (v.size - off) + v.sectorSize - 1) / v.sectorSize) * (v.sectorSize + 1) +
+        18 * (((min len (v.size - off) + v.sectorSize - 1) / v.sectorSize) / v.spb + 2)) ∧
+    (∀ (v : Vmdk.Sparse) (sector count : Nat), total (Footprint.vmdk v sector count) ≤ count * 512 + 8 * (count / v.grainSize + 2)) ∧
+    (∀ (q : Qcow2.QCow2) (offset length : Nat),
+      total (Footprint.qcow2Meta q offset length) ≤ (16 + 2 ^ (q.clusterBits - 8) * 512) * (length / q.cs + 2) ∧
+      total (Footprint.qcow2Data q offset length) ≤ length) :=
+  ⟨vhdx_footprint_size_bound, vmdk_footprint_size_bound,
+   fun q offset length => ⟨qcow2_meta_size_bound q offset length, qcow2_data_size_bound q offset length⟩⟩
+
+/-- **no_scan_tables**: VMDK — every range is the table entry of a grain the request touches (in the table the grain
+    directory names) or lies inside the grain that entry names; QCOW2 — every data-file range lies inside the host
+    cluster named by the L2 entry of a guest cluster the request touches, every image-file range is a word of the L2
+    table named by the L1 entry of such a cluster or the compressed data its entry names. -/
+theorem no_scan_tables :
+    (∀ (v : Vmdk.Sparse) (sector count : Nat), 0 < v.grainSize → ∀ r ∈ Footprint.vmdk v sector count,
+      ∃ g off, (sector - v.sectorOffset) / v.grainSize ≤ g ∧ g ≤ (sector - v.sectorOffset + count - 1) / v.grainSize ∧
+        Footprint.vmdkTable v g = some off ∧
+        (r = (off + (g % v.gtSize) * v.entryWidth, v.entryWidth) ∨
+          ∃ gsec, v.lookupGrain g = .ok gsec ∧ 1 < gsec ∧ gsec * 512 ≤ r.1 ∧ r.1 + r.2 ≤ (gsec + v.grainSize) * 512)) ∧
+    (∀ (q : Qcow2.QCow2) (offset length : Nat), ∀ r ∈ Footprint.qcow2Data q offset length,
+      ∃ c l2o e bm, offset / q.cs ≤ c ∧ c ≤ (offset + length - 1) / q.cs ∧ Footprint.qcow2L2 q c = some l2o ∧
+        q.l2Entry l2o (c % q.l2Size) = .ok (e, bm) ∧ q.clusterType e = .normal ∧
+        (e &&& Extracted.qcow2.L2E_OFFSET_MASK) ≤ r.1 ∧ r.1 + r.2 ≤ (e &&& Extracted.qcow2.L2E_OFFSET_MASK) + q.cs) ∧
+    (∀ (q : Qcow2.QCow2) (offset length : Nat), ∀ r ∈ Footprint.qcow2Meta q offset length,
+      ∃ c l2o, offset / q.cs ≤ c ∧ c ≤ (offset + length - 1) / q.cs ∧ Footprint.qcow2L2 q c = some l2o ∧
+        ((l2o ≤ r.1 ∧ r.1 + r.2 ≤ l2o + 8 * (q.l2Size * (q.l2EntrySize / 8))) ∨
+          ∃ e bm, q.l2Entry l2o (c % q.l2Size) = .ok (e, bm) ∧ q.clusterType e = .compressed ∧
+            r = Footprint.qcow2Comp q (e &&& Extracted.qcow2.L2E_COMPRESSED_OFFSET_SIZE_MASK))) :=
+  ⟨fun v sector count h r hr => vmdk_footprint_inside v sector count h r hr,
+   fun q offset length r hr => qcow2_data_inside q offset length r hr,
+   fun q offset length r hr => qcow2_meta_inside q offset length r hr⟩
+
 /-! non-vacuity: a VDI whose blocks sit beyond 2^40; a 2-byte request inside block 0 looks at 2 bytes at 2^40+…, and a
     file that differs everywhere else reads the same -/
 example : Footprint.vdi exVdi 1 2 = [(2 ^ 40 + 5 * 4096 + 1, 2)] := by decide
@@ -289,6 +366,87 @@ example (g : Nat → UInt8) : Vdi.read exVdi 1 2 = Vdi.read { exVdi with fh := e
   subst this
   have : p = 2 ^ 40 + 5 * 4096 + 1 ∨ p = 2 ^ 40 + 5 * 4096 + 2 := by simp only at h1 h2; omega
   simp only [exVdi, exFile, this, if_true]
+
+/-! non-vacuity (VHDX): payload block 0 PARTIALLY_PRESENT at 2^42, sector bitmap at 2^41; sectors 2..3 look at the payload
+    BAT entry, the sector-bitmap BAT entry, one bitmap byte and the two sectors — a file that differs everywhere else
+    (arbitrary `g`) reads the same -/
+example : Footprint.vhdx exVhdx 1024 1024 = [(2 ^ 20, 8), (2 ^ 20 + 2 ^ 23, 8), (2 ^ 41, 1), (2 ^ 42 + 1024, 1024)] := by decide
+example (g : Nat → UInt8) : exVhdx.read 1024 1024 = ({ exVhdx with fh := exVhdxFile g } : Vhdx.Vhdx).read 1024 1024 := by
+  refine vhdx_read_footprint exVhdx (exVhdxFile g) 1024 1024 rfl ?_
+  intro r _ p _ _
+  simp only [exVhdx, exVhdxFile]
+  repeat' split
+  all_goals first | rfl | skip
+  -- the only remaining position class is "outside every listed range": excluded by the footprint
+  all_goals
+    rename_i h1 h2 h3 h4 h5 h6 h7
+    have e : Footprint.vhdx exVhdx 1024 1024 = [(2 ^ 20, 8), (2 ^ 20 + 2 ^ 23, 8), (2 ^ 41, 1), (2 ^ 42 + 1024, 1024)] := by decide
+    rename_i hr hp1 hp2
+    rw [e] at hr
+    simp only [List.mem_cons, List.not_mem_nil, or_false] at hr
+    exfalso
+    rcases hr with rfl | rfl | rfl | rfl <;> simp only at hp1 hp2 <;> omega
+
+/-! non-vacuity (VMDK): a hosted sparse extent whose grain table sits at byte 2^40 and whose grain 1 sits at sector
+    0xC0000000 (byte 1649267441664); sectors 9..10 look at grain 1's table entry and at 2 sectors of the grain — a file
+    that differs everywhere else (arbitrary `g`) reads the same -/
+example : Footprint.vmdk exVmdk 9 2 = [(2 ^ 40 + 4, 4), ((0xC0000000 + 1) * 512, 2 * 512)] := by decide
+example (g : Nat → UInt8) :
+    exVmdk.readSectors 9 2 = ({ exVmdk with fh := exVmdkFile g } : Vmdk.Sparse).readSectors 9 2 := by
+  refine vmdk_read_footprint exVmdk (exVmdkFile g) 9 2 (by decide) rfl ?_
+  have e : Footprint.vmdk exVmdk 9 2 = [(2 ^ 40 + 4, 4), (1649267442176, 1024)] := by decide
+  rw [e]
+  intro r hr p h1 h2
+  simp only [exVmdk, exVmdkFile]
+  simp only [List.mem_cons, List.not_mem_nil, or_false] at hr
+  have hp : (1099511627776 ≤ p ∧ p < 1099511627784) ∨ (1649267442176 ≤ p ∧ p < 1649267443200) := by
+    rcases hr with rfl | rfl
+    · left; simp only at h1 h2; omega
+    · right; simp only at h1 h2; omega
+  have e40 : (2 : Nat) ^ 40 = 1099511627776 := by decide
+  rw [e40]
+  split
+  · rfl
+  · split
+    · rfl
+    · split
+      · rfl
+      · exfalso; omega
+
+/-! non-vacuity (QCOW2): 512-byte clusters, L2 table at 2^40, guest cluster 1 on the host cluster at 2^41; a 10-byte
+    request inside cluster 1 looks at its 8-byte L2 entry and at 10 bytes of the host cluster -/
+example : Qcow2.HdrOK exQ := ⟨by decide, by decide, by decide⟩
+example : Footprint.qcow2Meta exQ 517 10 = [(2 ^ 40 + 8, 8)] ∧ Footprint.qcow2Data exQ 517 10 = [(2 ^ 41 + 5, 10)] := by decide
+example (g g' : Nat → UInt8) :
+    exQ.read 517 10 = ({ exQ with fh := exQFile g, dataFile := exQFile g' } : Qcow2.QCow2).read 517 10 := by
+  have e : Footprint.qcow2Meta exQ 517 10 = [(2 ^ 40 + 8, 8)] ∧ Footprint.qcow2Data exQ 517 10 = [(2 ^ 41 + 5, 10)] := by decide
+  have e40 : (2 : Nat) ^ 40 = 1099511627776 := by decide
+  have e41 : (2 : Nat) ^ 41 = 2199023255552 := by decide
+  refine qcow2_read_footprint exQ ⟨by decide, by decide, by decide⟩ (exQFile g) (exQFile g') 517 10 rfl rfl ?_ ?_
+  · rw [e.1]
+    intro r hr p h1 h2
+    simp only [List.mem_cons, List.not_mem_nil, or_false] at hr
+    subst hr
+    simp only [e40] at h1 h2
+    simp only [exQ, exQFile, e40, e41]
+    split
+    · rfl
+    · split
+      · rfl
+      · exfalso; omega
+  · rw [e.2]
+    intro r hr p h1 h2
+    simp only [List.mem_cons, List.not_mem_nil, or_false] at hr
+    subst hr
+    simp only [e41] at h1 h2
+    simp only [exQ, exQFile, e40, e41]
+    split
+    · rfl
+    · split
+      · rfl
+      · split
+        · rfl
+        · exfalso; omega
 
 end footprint
 
